@@ -13,7 +13,8 @@ INFO = {
                    '(smart_split / split_quoted_str / split_whitespace_separated_str), the same quoted text (quote_field, rfc_quote_field) and the same unquoted text (unquote_field); '
                    'for EVERY file text the lowered record-assembly path of the JS reader (bulk mode: split_lines -> process_line -> record aggregation -> get_warnings) yields the records, '
                    'warnings and IO error of the Python CSVRecordIterator; tables written by either side\'s quoting kernel are read back identically by the other side.',
-    'bounds': 'lines of length <= 4 (quick) / <= 6 (thorough); file texts of total length <= 4 / 5; delimiters , ; TAB SPACE |; all five policies; comment prefix on/off',
+    'bounds': 'lines of length <= 4 (quick) / <= 6 (thorough); file texts of total length <= 4 / 5; delimiters , ; TAB SPACE |; all five policies; comment prefix on/off'
+        '; JS stream path (two chunks, CR / LF / quote pairs at the cut) against the Python reader on ASCII files of 3-5 bytes',
     'outside': 'astral (non-BMP) characters and lone surrogates (UTF-16 code units differ from code points); async reader plumbing (streams, promises, queue); file and CLI level agreement; select lists outside the enumerated common-syntax family',
     'assumptions': ['the ESTree->Python lowering preserves JS semantics for the subset used (validated per run against real node on ~8000 concrete calls; every counterexample is replayed in real node)',
                     'node String/RegExp semantics as re-implemented in vf/jslower/jsrt.py'],
@@ -155,6 +156,37 @@ return (js_res, py)
                meta={'function': 'rbql_csv.js CSVRecordIterator (bulk path, lowered) vs rbql_csv.py CSVRecordIterator', 'bounds': 'every BMP file text of length %d' % sum(lens)})
 
 
+def _stream_reader_obl(dlm, policy, comment, pattern, cut, timeout):
+    """The JS reader in STREAM mode (two Buffers, the cut is part of the shard) against the Python reader on the same ASCII file."""
+    params, pre, cells = [], [], []
+    for i, k in enumerate(pattern):
+        if k == 'x':
+            params.append(('b%d' % i, 'int'))
+            pre.append('0 <= b%d < 128' % i)
+            cells.append('b%d' % i)
+        else:
+            cells.append(str({'cr': 13, 'lf': 10, 'q': 34, 'd': ord(dlm[0]) if dlm else 44}[k]))
+    if not params:
+        params, pre = [('dummy', 'int')], ['dummy == 0']
+    body = indent('''
+from vf.jslower import jsrt
+data = [%s]
+text = ''.join([chr(b) for b in data])
+py = csvh.read_all([text], None, DLM, POLICY, False, COMMENT)
+js_res = jsc.read_stream_chunks([jsrt.Buffer(data[:CUT]), jsrt.Buffer(data[CUT:])], 'binary', DLM, POLICY, COMMENT)
+if py[0] == 'ok':
+    py = ('ok', py[1], sorted(py[3]))
+if js_res[0] == 'ok':
+    js_res = ('ok', js_res[1], sorted(js_res[2]))
+return (js_res, py)
+''' % ', '.join(cells))
+    imports = 'from vf import csvh\nNODE_KIND = None\nDLM = %r\nPOLICY = %r\nCOMMENT = %r\nCUT = %d\n' % (dlm, policy, comment, cut)
+    src = harness(imports, params, pre, body, extra_defs=PRELUDE)
+    return Obl('js_stream_vs_py_reader[%s,%r,comment=%r,%s,cut=%d]' % (policy, dlm, comment, '.'.join(pattern), cut), src, timeout=timeout,
+               meta={'function': 'rbql_csv.js CSVRecordIterator (stream path, lowered, two chunks) vs rbql_csv.py CSVRecordIterator',
+                     'bounds': 'every ASCII file of structure %s (x = any byte < 128), second chunk starting at offset %d' % (pattern, cut)})
+
+
 HDR_PRELUDE = PRELUDE + '''
 jsr = _jsb._load('js_rbql', _jsb.path_of('js_rbql'))
 
@@ -247,4 +279,8 @@ def obligations(tier, seed):
                 if quick and sum(lens) == 4 and policy in ('quoted', 'quoted_rfc') and ci % 2:
                     continue
                 obs.append(_reader_obl(dlm, policy, comment, enc, lens, t))
+        # stream mode: a CRLF pair, a quote pair and free bytes across the chunk boundary
+        for dlm, policy, comment in ((',', 'quoted', None), (',', 'quoted_rfc', '#'), ('\t', 'simple', None)):
+            for pattern, cut in ((['x', 'cr', 'lf', 'x'], 2), (['x', 'x', 'x'], 1), (['x', 'x', 'x'], 2), (['cr', 'lf', 'x', 'x'], 1)) + (() if quick else ((['x', 'q', 'q', 'x'], 2), (['x', 'x', 'x', 'x'], 2), (['x', 'cr', 'lf', 'cr', 'lf'], 2))):
+                obs.append(_stream_reader_obl(dlm, policy, comment, pattern, cut, t))
     return obs
